@@ -3,7 +3,7 @@
 cd "$(dirname "$0")/.."
 for p in "$@"; do
   for d in /tmp/seed/$p/_seed/[0-9]*; do
-    k=$(basename $d); mkdir -p seeded/$p-$k; cp $d/patch.diff $d/demo.py $d/meta.json seeded/$p-$k/ 2>/dev/null
+    k=$(basename $d); if [ -d seeded/$p-$k ] && [ -z "$SEED_REDO" ]; then continue; fi; mkdir -p seeded/$p-$k; cp $d/patch.diff $d/demo.py $d/meta.json seeded/$p-$k/ 2>/dev/null
     python3 tools/seedtest.py seeded/$p-$k > /tmp/wk/seed-$p-$k.log 2>&1
     python3 -c "
 import json; m=json.load(open('seeded/$p-$k/meta.json')); v=m['verification']; print('$p-$k', 'confirmed' if v['confirmed'] else 'NOT-CONFIRMED(%s,%s,%s)'%(v['demo_unchanged_exit'],v['demo_changed_exit'],v['suite_same_as_baseline']), {q:('caught' if c['caught'] else 'MISSED', 'input' if c['with_failing_input'] else 'no-input', c['wall_s']) for q,c in v['checks'].items()}, '|', m.get('title','')[:90])"
